@@ -17,6 +17,8 @@ type Loop struct {
 	labelStart    string
 	labelBreak    string
 	labelContinue string
+	// Number of `try` blocks of the current function which were already open when this loop was entered.
+	tryDepth uint
 }
 
 type Function struct {
@@ -30,9 +32,12 @@ type Function struct {
 }
 
 type Compiler struct {
-	modules         map[string]map[string]*Function
-	currFn          string
-	loops           []Loop
+	modules map[string]map[string]*Function
+	currFn  string
+	loops   []Loop
+	// Number of `try` blocks of the current function which are open at the current point of code generation.
+	// Code which jumps out of them (`break`, `continue`, `return`) removes their catch-labels first.
+	tryDepth        uint
 	fnNameMangle    map[string]uint64
 	varNameMangle   map[string]uint64
 	labelNameMangle map[string]uint64
